@@ -1,7 +1,7 @@
 ---------------------------- MODULE ProgUniverse ----------------------------
 (***************************************************************************)
 (* The bounded universe of (program, environment) pairs shared by MCInterp *)
-(* and MCRefEval: the sequence UniverseSeq (ClassicSeq = its classic part). *)
+(* and MCRefEval: the sequence UniverseSeq (ClassicIdx = its classic part). *)
 (* Every element is [p |-> program, e |-> environment, k |-> class name];  *)
 (* the class is only used for coverage counts.                             *)
 (*                                                                         *)
@@ -251,5 +251,6 @@ Atoms(t) == IF IsAtom(t) THEN {t.a} ELSE Atoms(t.f) \cup Atoms(t.r)
 LaterOpcodeAtoms == {<< o >> : o \in {29, 30} \cup (48..65)} \cup {Secp256k1Op, Secp256r1Op}
 \* conservative: an atom that could be dispatched as a later operator occurs anywhere in the program
 ClassicOnly(x) == Atoms(x.p) \cap LaterOpcodeAtoms = {}
-ClassicSeq == SelectSeq(UniverseSeq, ClassicOnly)
+\* (a set of indices: TLC does not cache a constant definition that passes an operator to SelectSeq - measured)
+ClassicIdx == {i \in 1..Len(UniverseSeq) : ClassicOnly(UniverseSeq[i])}
 =============================================================================
